@@ -18,8 +18,9 @@
 (* apollo-compiler's documented differences (named):                       *)
 (*   Apollo_UndefinedRootTypeRejected — an operation whose root type is    *)
 (*   not defined is rejected (the spec says nothing);                      *)
-(*   Apollo_SubscriptionSkipInclude, Apollo_DeferRules — not exercised by  *)
-(*   the generated documents (no @defer, no @skip on subscription roots).  *)
+(*   Apollo_SubscriptionSkipInclude — no @skip / @include on a            *)
+(*   subscription's root selections; Apollo_DeferRules — labels, root and  *)
+(*   unconditional @defer (validation/operation.rs validate_defer).        *)
 (***************************************************************************)
 EXTENDS Naturals, Sequences, FiniteSets
 
@@ -234,6 +235,54 @@ RootConditional(doc, sels, fuel) ==
      \/ (s.k = "inline" /\ RootConditional(doc, s.sels, fuel))
      \/ (s.k = "spread" /\ fuel > 0 /\ HasFrag(doc, s.name) /\ RootConditional(doc, FragByName(doc, s.name).sels, fuel - 1))
 
+\* apollo-compiler's own @defer rules (named in the property; validation/operation.rs validate_defer). They are applied
+\* whenever a directive NAMED `defer` is used, with or without a schema.
+DirArg(d, n) == IF \E j \in 1..Len(d.args) : d.args[j].name = n
+                THEN d.args[CHOOSE j \in 1..Len(d.args) : d.args[j].name = n].value ELSE <<"absent">>
+Defers(dirs) == SelectSeq(dirs, LAMBDA d : d.name = "defer")
+RECURSIVE DeferLabels(_)
+\* label values of every @defer in a selection set (fields and inline fragments are entered, spreads are not followed)
+DeferLabels(sels) ==
+  IF sels = <<>> THEN <<>>
+  ELSE LET s == Head(sels)
+           own == [k \in 1..Len(Defers(s.dirs)) |-> DirArg(Defers(s.dirs)[k], "label")]
+       IN own \o (IF s.k = "spread" THEN <<>> ELSE DeferLabels(s.sels)) \o DeferLabels(Tail(sels))
+RECURSIVE Concat2(_)
+Concat2(ss) == IF ss = <<>> THEN <<>> ELSE Head(ss) \o Concat2(Tail(ss))
+AllDeferLabels(doc) == Concat2([k \in 1..Len(doc.operations) |-> DeferLabels(doc.operations[k].sels)])
+                       \o Concat2([k \in 1..Len(doc.fragments) |-> DeferLabels(doc.fragments[k].sels)])
+DeferLabelsOK(doc) ==
+  LET ls == AllDeferLabels(doc) IN
+    /\ \A k \in 1..Len(ls) : ls[k][1] # "var"                                   \* a label is not a variable
+    /\ NoDup(SelectSeq(ls, LAMBDA v : v[1] = "str"))                            \* labels are unique in the document
+RECURSIVE RootDefer(_, _, _)
+\* @defer on a root-level inline fragment or spread (through fragments), forbidden for mutations and subscriptions
+RootDefer(doc, sels, fuel) ==
+  \E k \in 1..Len(sels) : LET s == sels[k] IN
+     \/ (s.k # "field" /\ Defers(s.dirs) # <<>>)
+     \/ (s.k = "inline" /\ RootDefer(doc, s.sels, fuel))
+     \/ (s.k = "spread" /\ fuel > 0 /\ HasFrag(doc, s.name) /\ RootDefer(doc, FragByName(doc, s.name).sels, fuel - 1))
+MayBeExcluded(dirs) ==
+  \E k \in 1..Len(dirs) :
+     \/ (dirs[k].name = "skip" /\ DirArg(dirs[k], "if") # <<"bool", FALSE>>)
+     \/ (dirs[k].name = "include" /\ DirArg(dirs[k], "if") # <<"bool", TRUE>>)
+CanBeDisabled(d) == DirArg(d, "if") = <<"bool", FALSE>> \/ DirArg(d, "if")[1] = "var"
+RECURSIVE UnconditionalDefer(_, _, _)
+\* in a subscription every @defer that cannot be excluded must be disable-able (`if: false` or a variable)
+UnconditionalDefer(doc, sels, fuel) ==
+  \E k \in 1..Len(sels) : LET s == sels[k] IN
+     /\ ~MayBeExcluded(s.dirs)
+     /\ \/ \E j \in 1..Len(Defers(s.dirs)) : ~CanBeDisabled(Defers(s.dirs)[j])
+        \/ (s.k # "spread" /\ UnconditionalDefer(doc, s.sels, fuel))
+        \/ (s.k = "spread" /\ fuel > 0 /\ HasFrag(doc, s.name) /\ UnconditionalDefer(doc, FragByName(doc, s.name).sels, fuel - 1))
+Apollo_DeferRules == TRUE
+DeferOK(doc) ==
+  Apollo_DeferRules =>
+    /\ DeferLabelsOK(doc)
+    /\ \A k \in 1..Len(doc.operations) : LET op == doc.operations[k] IN
+         /\ (op.kind # "query") => ~RootDefer(doc, op.sels, 4)
+         /\ (op.kind = "subscription") => ~UnconditionalDefer(doc, op.sels, 4)
+
 \* ---- operations -------------------------------------------------------------------------------------------
 LocationOfOp(kind) == CASE kind = "query" -> "QUERY" [] kind = "mutation" -> "MUTATION" [] OTHER -> "SUBSCRIPTION"
 
@@ -265,6 +314,7 @@ RECURSIVE SelsArgsUnique(_)
 SelsArgsUnique(sels) ==
   \A k \in 1..Len(sels) : DirArgsUnique(sels[k].dirs) /\ NoDup(Names(sels[k].args)) /\ SelsArgsUnique(sels[k].sels)
 StandaloneValid(doc) ==
+  /\ DeferOK(doc)                                                                                  \* apollo's @defer rules need no schema
   /\ \A k \in 1..Len(doc.operations) :                                                             \* Argument Uniqueness
        /\ DirArgsUnique(doc.operations[k].dirs) /\ SelsArgsUnique(doc.operations[k].sels)
        /\ \A j \in 1..Len(doc.operations[k].vars) : DirArgsUnique(doc.operations[k].vars[j].dirs)
@@ -298,6 +348,34 @@ ValidGuarantees(doc) ==
   /\ \A k \in 1..Len(doc.operations) : VarsUsedByOp(doc, doc.operations[k]) \subseteq Range(Names(doc.operations[k].vars))
   /\ \A k \in 1..Len(doc.operations) : LeafRule(RootType(doc.operations[k].kind), doc.operations[k].sels)
   /\ \A k \in 1..Len(doc.fragments) : LeafRule(doc.fragments[k].on, doc.fragments[k].sels)
+
+\* the fields the document BUILT against the schema keeps (executable/from_ast.rs): a field is dropped, with its
+\* sub-selections, when its parent type has no such field or when a leaf field has sub-selections; an inline fragment
+\* whose type condition is undefined is dropped; operations: the first of each name (an anonymous one only if it comes
+\* first) with a defined root type; fragments: the first of each name with a defined type condition
+RECURSIVE BuiltFields(_, _)
+BuiltFields(parent, sels) ==
+  IF sels = <<>> THEN <<>>
+  ELSE LET s == Head(sels) IN
+       (CASE s.k = "field" ->
+               LET d == FieldDefOf(parent, s.name) IN
+               IF d = NoField THEN <<>>
+               ELSE IF ~IsComposite(NamedOfT(d.type)) /\ Len(s.sels) >= 1 THEN <<>>
+               ELSE << <<parent, s.name>> >> \o BuiltFields(NamedOfT(d.type), s.sels)
+          [] s.k = "inline" -> IF s.on # "" /\ ~SR!HasType(S, s.on) THEN <<>>
+                               ELSE BuiltFields(IF s.on = "" THEN parent ELSE s.on, s.sels)
+          [] OTHER -> <<>>) \o BuiltFields(parent, Tail(sels))
+KeptOp(doc, k) ==
+  LET op == doc.operations[k] IN
+    /\ RootType(op.kind) # ""
+    /\ IF op.name = "" THEN k = 1 ELSE \A j \in 1..(k - 1) : doc.operations[j].name # op.name
+KeptFrag(doc, k) == /\ SR!HasType(S, doc.fragments[k].on)
+                    /\ \A j \in 1..(k - 1) : doc.fragments[j].name # doc.fragments[k].name \/ ~SR!HasType(S, doc.fragments[j].on)
+RECURSIVE ConcatSeqs(_)
+ConcatSeqs(ss) == IF ss = <<>> THEN <<>> ELSE Head(ss) \o ConcatSeqs(Tail(ss))
+AllBuiltFields(doc) ==
+  ConcatSeqs([k \in 1..Len(doc.operations) |-> IF KeptOp(doc, k) THEN BuiltFields(RootType(doc.operations[k].kind), doc.operations[k].sels) ELSE <<>>])
+  \o ConcatSeqs([k \in 1..Len(doc.fragments) |-> IF KeptFrag(doc, k) THEN BuiltFields(doc.fragments[k].on, doc.fragments[k].sels) ELSE <<>>])
 
 RECURSIVE WalkSels(_, _, _, _)
 \* <<fields visited (sequence of <<alias, name>>), fragments seen>>; deep = also field sub-selections
